@@ -93,6 +93,45 @@ def run(tier, seed):
             if len(v.cov["samples"]) < 3 and len(e["resp"]["refs"]) >= 2:
                 v.sample({"thread_frames": T, "anchor_seq": o["x"], "variant": c["_variant"], "predicted": e["resp"], "observed": threads.project_compile(r["ret"])})
 
+    # ---- compile racing with an append: the compile is parked between its tail scan and its head read while another
+    #      writer appends; the cut it reports must be the cut of the truth before or after that append, nothing else
+    setup = [{"op": "ensure_default"}, {"op": "message", "t": 0}, {"op": "message", "t": 0}]
+    others = [("message", {"op": "message", "t": 0}), ("checkpoint", {"op": "checkpoint", "t": 0, "to_msg": 0, "summary": "s"}),
+              ("run_spawned", {"op": "run_spawned", "t": 0, "m": 1, "s": 1}), ("two_messages", None)]
+    scases = []
+    for name, op in others:
+        w2 = [op] if op else [{"op": "message", "t": 0}, {"op": "message", "t": 0}]
+        for anchor in (0, 1):
+            for park in ("compile.head.read", "compile.tail.scanned"):
+                pre = [{"a": "w1", "p": "compile.head.read"}] + ([{"a": "w1", "p": "compile.tail.scanned"}] if park == "compile.tail.scanned" else [])
+                scases.append({"id": f"race-{name}-{anchor}-{park.split('.')[1]}", "setup": setup,
+                               "actors": [{"name": "w1", "ops": [{"op": "compile", "t": 0, "m": anchor, "s": 0, "record": False}]}, {"name": "w2", "ops": w2}],
+                               "schedule": pre + [{"a": "w2", "p": "*"}] * (14 * len(w2)) + [{"a": "w1", "p": "*"}] * 8,
+                               "_anchor": anchor, "_other": name, "_npre": len(pre)})
+    sres = run_harness("sched", [{k: c[k] for k in c if not k.startswith("_")} for c in scases], wd, "race", shards=4, timeout=600)
+    sby = {c["id"]: c for c in scases}
+    for res in sres:
+        c = sby[res["id"]]
+        parked = len(res["steps"]) >= c["_npre"] and all(st[2] == "ok" for st in res["steps"][:c["_npre"]])
+        v.add_eval({"race": c["id"]}, bool(parked))
+        frames = [f for f in res["summary"]["frames"] if f[3] == "continuity"]
+        msgs = [f[1] for f in frames if f[2] == "continuity_message_appended"]
+        # truth before the other writer: created@0, m@1, m@2 (head 2); after: whatever it appended
+        a_seq = msgs[c["_anchor"]]
+
+        def cut(upto):
+            later = [q for q in msgs if q > a_seq and q <= upto]
+            return (later[0] - 1) if later else upto
+        allowed = {cut(2), cut(frames[-1][1])}
+        ret = res["rets"][0][0] if res["rets"] and res["rets"][0] else {}
+        got = (ret.get("ret") or {}).get("from_seq") if ret.get("ok") else None
+        if not parked:
+            v.drift({"case": c["id"], "note": "compile did not reach the point after its tail scan"})
+        elif got not in allowed:
+            v.violation(f"compile for the message at seq {a_seq} raced with {c['_other']}: it reports the cut from_seq={got}; the truth before the append gives {cut(2)}, "
+                        f"after it {cut(frames[-1][1])} (thread {[(f[1], f[2].replace('continuity_', '')) for f in frames]})",
+                        {"engine": "sched", "case": {k: c[k] for k in c if not k.startswith("_")}, "allowed": sorted(allowed), "got": got})
+
     # ---- a full run: the first request's input must be exactly the compiled bundle's items
     script = [{"status": 200, "chunks": ["data: " + json.dumps({"type": "response.output_text.delta", "delta": "answer"}) + "\n\ndata: [DONE]\n\n"]}] * 4
     rc = {"id": "fullrun", "script": script, "linked": True, "inputs": ["first question", "second question", "third question"], "timeout_ms": 20000}
